@@ -351,7 +351,8 @@ def run_case(case):
     ev.append(fresh_view(sim))
     const = dict(kind=lay["kind"], unit=lay["unit"], fmt=lay["fmt"], mem0=list(lay["mem0"]), ro=lay["ro"],
                  ow=lay["ow"], relax=[], old=list(lay["old"]))
-    return dict(id=case["id"], const=const, ev=ev, frames=kinds)
+    run_case.last_frames = kinds           # frame kinds of the last call (for choosing fault positions)
+    return dict(id=case["id"], const=const, ev=ev)
 
 
 # ------------------------------------------------------------------------------------------------
@@ -466,14 +467,83 @@ def cases_c01(seed, quick):
             if n >= LONG and p["hdr_rsvd"]:
                 continue
             cases.append(dict(id="w%d.%d" % (li, n), lay=desc, lseed=lseed, op="write", n=n, mseed=seed + li, cut=None))
+    # two-sector Type 2 Tag (CC size byte EAh): round trip of messages that reach into sector 1
+    ms = t2_desc(0xEA, 2, (), 40, "rnd", extra=32)
+    for n in ((1200,) if quick else (1000, 1200, 1400, 1866)):
+        cases.append(dict(id="ms.%d" % n, lay=ms, lseed=seed * 1000 + 400, op="write", n=n, mseed=seed, cut=None))
+    # one command fails with a tag error, the application repeats the assignment on the same tag object
+    fl = [("f-t1s", t1_desc(False, 120, 0x48, 0, (), 23, "rnd"), 30), ("f-t1d", t1_desc(True, 512, 0x00, 3, (), 20, "rnd"), 300),
+          ("f-t2", t2_desc(12, 1, (), 20, "rnd"), 40)]
+    if not quick:
+        fl += [("f-t2ms", ms, 1200), ("f-t1s0", t1_desc(False, 120, 0x00, 2, (), 10, "rnd"), 10)]
+    for j, (name, desc, n) in enumerate(fl):
+        base = dict(lay=desc, lseed=seed * 1000 + 410 + j, op="write", n=n, mseed=seed + j)
+        cases += fault_cases(name, base, quick, rnd, retry=1, cuts="none", only=("read", "write", "ss1", "ss2"))
     return cases
+
+
+# ---- the fault / retry dimension ------------------------------------------------------------------
+FAULT_KINDS = {"T2": {"read": ["burst", "nak", "xerr"], "write": ["burst", "nak", "xerr"], "ss1": ["burst", "nak", "xerr"],
+                      "ss2": ["xerr", "nak"]},       # silence after packet 2 IS the acknowledgement: never injected
+               "T1": {"read": ["burst", "xerr"], "write": ["burst", "xerr"]}}
+
+
+def frames_of(base):
+    """frame kinds (read / write / ss1 / ss2) of the fault-free call, and its trace"""
+    c = dict(base, id="probe", cut=None, fault=None, retry=0)
+    tr = run_case(c)
+    return list(run_case.last_frames), tr
+
+
+def pick(idx, quick, rnd, every=False):
+    """positions among idx: all (thorough / every) or first two, one in the middle, last two"""
+    if every or not quick or len(idx) <= 5:
+        return list(idx)
+    return sorted({idx[0], idx[1], idx[len(idx) // 2], idx[-2], idx[-1], idx[rnd.randrange(len(idx))]})
+
+
+def fault_cases(idp, base, quick, rnd, retry, cuts, all_kinds=False, only=("read", "write", "ss1", "ss2"), every_write=False):
+    """one transient fault at a frame of the call; retry = the application repeats the call on the same object;
+    cuts = 'none' | 'some' | 'all': power cuts during the repeated call"""
+    frames, _ = frames_of(base)
+    fam = "T2" if base["lay"]["b"] == "t2" else "T1"
+    out = []
+    rot = 0
+    for kind_of_frame in only:
+        idx = [i for i, f in enumerate(frames) if f == kind_of_frame]
+        if not idx or kind_of_frame not in FAULT_KINDS[fam]:
+            continue
+        sel = idx if kind_of_frame in ("ss1", "ss2") else pick(idx, quick, rnd, every=every_write and kind_of_frame == "write")
+        for pos in sel:
+            fks = FAULT_KINDS[fam][kind_of_frame]
+            if not (all_kinds or kind_of_frame in ("ss1", "ss2")):
+                rot += 1
+                fks = [fks[rot % len(fks)]] if quick else fks
+            for fk in fks:
+                c0 = dict(base, id="%s.%s%d.%s" % (idp, kind_of_frame[0] + kind_of_frame[-1], pos, fk), cut=None,
+                          fault=dict(at=pos, kind=fk), retry=0)
+                out.append(c0)
+                if retry and not (fk == "xerr" and kind_of_frame != "ss2"):      # a masked fault: nothing to repeat
+                    c1 = dict(c0, id=c0["id"] + ".r", retry=1)
+                    out.append(c1)
+                    if cuts != "none":
+                        tr = run_case(c1)
+                        b = [i for i, e in enumerate(tr["ev"]) if e["a"] == "Begin"]
+                        if len(b) < 2:
+                            continue
+                        total = sum(1 for e in tr["ev"][b[1]:] if e["a"] == "Cmd" and e["s"] == 0)
+                        ks = range(0, total + 1) if cuts == "all" or total <= 6 else \
+                            sorted({0, 1, 2, total // 2, total - 1, total, rnd.randrange(total + 1)})
+                        for k in ks:
+                            out.append(dict(c1, id=c1["id"] + ".k%d" % k, cut=k))
+    return out
 
 
 def count_cmds(case):
     c = dict(case)
     c["cut"] = None
     tr = run_case(c)
-    return sum(1 for e in tr["ev"] if e["a"] == "Cmd"), tr
+    return sum(1 for e in tr["ev"] if e["a"] == "Cmd" and e["s"] == 0), tr
 
 
 def layouts_c02(rnd, quick):
@@ -525,6 +595,19 @@ def cases_c02(seed, quick):
             cases.append(dict(id="c%d.%d.full" % (li, n), cut=None, **base))
             for k in sorted(cuts):
                 cases.append(dict(id="c%d.%d.k%d" % (li, n, k), cut=k, **base))
+    # one write command is lost (tag error), the application repeats the assignment on the SAME tag object, and the
+    # tag leaves the field at every position of the repeated write
+    fl = [("f-t1s", t1_desc(False, 120, 0x48, 0, (), 23, "rnd"), 30, True),         # Topaz, byte-wise writes
+          ("f-t1s=", t1_desc(False, 120, 0x48, 0, (), 23, "rnd"), 23, False),       # same length as the old message
+          ("f-t1d", t1_desc(True, 512, 0x00, 2, (), 280, "zero-lead"), 300, False),
+          ("f-t2", t2_desc(12, 2, (), 30, "zero-lead"), 40, False),
+          ("f-t2l", t2_desc(0x3E, 1, (), 300, "rnd"), 300, False)]
+    for j, (name, desc, n, every) in enumerate(fl):
+        base = dict(lay=desc, lseed=seed * 1000 + 600 + j, op="write", n=n, mseed=seed + j)
+        cases += fault_cases(name, base, quick, rnd, retry=1, cuts="some" if quick else "all", only=("write",),
+                             every_write=every and not quick)
+        if not quick:
+            cases += fault_cases(name + "r", base, quick, rnd, retry=1, cuts="some", only=("read",))
     return cases
 
 
@@ -650,16 +733,32 @@ def cases_c03(seed, quick):
             for wipe in ((0xA5,) if light else (None, 0xA5) if quick else (None, 0x00, 0xA5)):
                 cases.append(dict(id="f%d-%s.%s" % (li, name, "n" if wipe is None else "%02x" % wipe), lay=desc,
                                   lseed=lseed, op="format", wipe=wipe, cut=None))
+    # two-sector Type 2 Tag (CC size byte EAh, > 1 KB): a message reaching into sector 1, format with wipe, and one
+    # transient fault (lost command / NAK / garbled frame) at the sector selects and at reads / writes of the call
+    ms = t2_desc(0xEA, 2, (), 40, "rnd", extra=32)
+    mseed = seed * 1000 + 900
+    for n in ((1200,) if quick else (1000, 1200, 1866, 1867)):
+        cases.append(dict(id="ms.w%d" % n, lay=ms, lseed=mseed, op="write", n=n, mseed=seed, cut=None))
+    cases.append(dict(id="ms.fa5", lay=ms, lseed=mseed, op="format", wipe=0xA5, cut=None))
+    cases += fault_cases("ms.w1200", dict(lay=ms, lseed=mseed, op="write", n=1200, mseed=seed), quick, rnd, retry=0,
+                         cuts="none", all_kinds=not quick)
+    cases += fault_cases("ms.fa5", dict(lay=ms, lseed=mseed, op="format", wipe=0xA5), quick, rnd, retry=0,
+                         cuts="none", only=("ss1", "ss2") if quick else ("read", "write", "ss1", "ss2"))
+    if not quick:
+        big = t2_desc(0xFE, 1, (), 1100, "rnd", extra=32)      # three sectors, old message already in sector 1
+        cases += fault_cases("ms3.w1500", dict(lay=big, lseed=mseed + 1, op="write", n=1500, mseed=seed), quick, rnd,
+                             retry=0, cuts="none", only=("ss1", "ss2"))
     return cases
 
 
 # ------------------------------------------------------------------------------------------------
 # verdicts -> canonical keys
-ALL_INV = ["CapSound", "RejectEarly", "NoCrash", "RoundTrip", "Atomic", "Confined", "UnitsInArea", "LockOneWay"]
+ALL_INV = ["CapSound", "RejectEarly", "NoCrash", "RoundTrip", "Atomic", "Confined", "UnitsInArea", "LockOneWay",
+           "Coherent", "SectorSync"]
 ENFORCED = {
-    "C01": ["CapSound", "RejectEarly", "NoCrash", "RoundTrip"],
-    "C02": ["Atomic"],
-    "C03": ["Confined", "UnitsInArea", "LockOneWay", "NoCrash", "RoundTrip"],
+    "C01": ["CapSound", "RejectEarly", "NoCrash", "RoundTrip", "Coherent", "SectorSync"],
+    "C02": ["Atomic", "Coherent"],
+    "C03": ["Confined", "UnitsInArea", "LockOneWay", "NoCrash", "RoundTrip", "SectorSync"],
 }
 K_EMPTY = "%s:ndef-write:len=0:UnboundLocalError"                      # % family
 K_STRADDLE = "%s:ndef-write:3-byte-length-field-straddles-write-unit:FF-committed-first"
@@ -701,7 +800,7 @@ def with_relax(tr, relax, suffix=""):
 def selftest_traces(tr):
     """binding self-test: one corrupted field, one corrupted address, one dropped event -> must be rejected"""
     out = []
-    idx = [i for i, e in enumerate(tr["ev"]) if e["a"] == "Cmd"]
+    idx = [i for i, e in enumerate(tr["ev"]) if e["a"] == "Cmd" and e["s"] == 0]
     if len(idx) < 3:
         raise HarnessError("self-test trace too short")
     t1 = json.loads(json.dumps(tr))
@@ -815,10 +914,10 @@ def mc_compute(pid, quick):
     c = pid.lower()
     cfg = "MC_TlvTag_%s%s.cfg" % (c, "q" if quick else "t")
     r = tlc.run("MC_TlvTag.tla", cfg, pid, workers=16, timeout=600 if quick else 1800)
-    need = {"C01": ["W_DoneLong", "W_DoneCap", "W_Rejected", "W_Crash", "W_SkipInside", "W_OddLock", "W_RoomEdge"],
-            "C02": ["W_CutNew", "W_CutOld", "W_CutEmpty", "W_Straddle", "W_Mixture"],
+    need = {"C01": ["W_DoneLong", "W_DoneCap", "W_Rejected", "W_Crash", "W_SkipInside", "W_OddLock", "W_RoomEdge", "W_SelDone", "W_RetryDone"],
+            "C02": ["W_CutNew", "W_CutOld", "W_CutEmpty", "W_Straddle", "W_Mixture", "W_RetryCut", "W_FaultLen0"],
             "C03": ["W_SkipInside", "W_SkipAfter", "W_SkipBeyond", "W_FormatWipe", "W_Escape", "W_OddLock", "W_Mem256",
-                    "W_Exp2", "W_Exp3", "W_Exp4", "W_RoomEdge"]}[pid]
+                    "W_Exp2", "W_Exp3", "W_Exp4", "W_RoomEdge", "W_FaultSel", "W_SelDone"]}[pid]
     hit, _ = tlc.witnesses("MC_TlvTag.tla", "MC_TlvTag_%sw.cfg" % c, pid, need, timeout=600, workers=2)
     return cfg, r, need, hit
 
